@@ -48,6 +48,10 @@ ShABL == {"a", "b", "l"}
 G2    == {11, 31}
 G1    == {11}
 G3    == {5, 11, 31}
+\* the "cached conversation with a moving host" family: h1 and h2 talk to each other, h1 moves between ports 1 and 3
+Mv13 == {<<1, 1>>, <<1, 3>>}
+Narrow == /\ (last.a = "Send" => last.args.h # last.args.dst)
+          /\ (last.a = "Move" => last.args.h = 1)
 BT == {TRUE}
 BF == {FALSE}
 BB == {TRUE, FALSE}
